@@ -16,6 +16,9 @@ CONSTANTS
   BoundaryGuard = "none"
   UpdateArg = "kept"
   TrackArg = TRUE
+  FitEntry = "recompile"
+  FileRoute = "as_api"
+  Files <- MCFilesFew
   ModeCalls <- MCModeCalls
   InvalidModes <- MCInvalidModes
   ObsParams <- MCObsParams
